@@ -6,14 +6,46 @@ HERE = os.path.dirname(os.path.dirname(os.path.abspath(__file__)))
 BASELINE_OFF = "cd /repo && go test -mod=mod -json -vet=off -count=1 -timeout 25m ./..."
 
 # property -> (technique, level text, level note, design ref)
+NOTE = 'Trusts go/types, go/ssa and the VTA call graph (x/tools v0.29.0) and the hand-confirmed anchor tables in /verif/rulint, which are re-resolved through go/types on every run; path-insensitive except where stated; decides the named structural clauses only, never the behavioural property as a whole.'
+
+def lvl(what, notdecided):
+    return ("Structural necessary conditions of the property, decided from the source on every static path of the current tree (all paths, all call chains, all implementations at once): " + what + " A pass is not a proof of the behavioural property; not decided: " + notdecided)
+
 CLAIMED = {
- "C19": ("static must-pass-through (gate) analysis over go/ssa CFGs + VTA call graph; who-may-call; operand provenance in the gates",
-         "Structural necessary conditions of the access-control property decided on every static path of the current tree: every path from each exported Location method and each root (JS callbacks, goroutines) to a mutating/revealing State call passes the success edge of CheckWrite/CheckRead/Enabled before the first state access; ungated mutators are called only from allow-listed code; the gates compare the right key with the right property and sub-contexts inherit the keys. Not a proof of the behavioural property (no claim about equality of behaviour with the right keys).",
-         "Trusts go/types, go/ssa and the VTA call graph (x/tools v0.29.0); reflection-invoked closures are treated as entries; external App/Tracer/Logger implementers assumed not to touch state.",
-         "DESIGN.md §3.2, §4 C19"),
+ "C01": ("pairing / provenance / sibling-agreement rules over go/ssa (rule index vs fact map, trie visit<=>collect, cache invalidation)",
+         lvl("the stored rule's pattern is un-indexed (with a pattern derived from the stored fact) before IdToFact[id] is replaced or deleted; a non-scheduled rule is indexed before it is stored; every trie node the search continues into has its ids collected (and the root's too); writer and reader of the trie dispatch on the same value kinds; every fact-map write invalidates the parsed-rule cache.", "completeness of the trie search beyond visit<=>collect, the bindings, ancestor merging, expiry timing."),
+         NOTE, "DESIGN.md §4 C01"),
+ "C06": ("error-flow (path-sensitive taint of error values over SSA + call-graph carriers), must-pass-through with success-return classification, provenance, transaction-scope escape analysis",
+         lvl("every core.Storage error reaches the caller's error result on every path (purge-on-read errors cut off and listed); every success return of State.Add lies behind Storage.Add and every removal from memory is paired with the storage removal; the persisted bytes are marshalled from the prepared fact that is kept in memory; storage calls use the state's own namespace; bolt-owned byte slices do not escape their transaction.", "crash points between two storage writes, equality of reloaded and live locations, fault sequences."),
+         NOTE, "DESIGN.md §4 C06"),
+ "C07": ("gate (must-pass-through) analysis on the purge helper, return-value truth rule, provenance with control dependence",
+         lvl("stored items reach results only behind the not-expired edge of expire(); the purge helper reports expired even when the clean-up fails; writes are refused before anything is stored when PrepareFact rejects them; the has-expiry flag and the canonical absolute expiry are computed after ttl canonicalisation and from the clock; what is persisted carries the absolute expiry.", "the boundary comparison (<= vs <), the arithmetic of setExpires, purge timing."),
+         NOTE, "DESIGN.md §4 C07"),
+ "C08": ("pairing / ordering rules with path-sensitive success-return classification and constant-argument specialisation; provenance of deleteWith",
+         lvl("the removal primitive always cascades (also for absent ids), the cascade runs only after the id left the map (termination on cycles), dependents come from the re-matching search for {deleteWith:[id]}, removals from memory are paired with storage removals, property facts and rule wrappers carry deleteWith.", "that exactly the dependents are found (relies on matching and the term index), deletion orders."),
+         NOTE, "DESIGN.md §4 C08"),
+ "C10": ("gate analysis over SSA + VTA call graph (Enabled / RuleEnabled), pairing rules (cache invalidation, disabled flag)",
+         lvl("every Location entry refuses on the disabled edge before touching state; FindRules.Do dispatches a rule only behind RuleEnabled == true (except rules embedded in the event); every fact-map write drops the cached parse; RemRule removes the disabled flag.", "the lifecycle state machine over histories, reload survival, inherited disablement."),
+         NOTE, "DESIGN.md §4 C10"),
+ "C11": ("lock-set (guarded-by) analysis with wrapper summaries, constant-bool specialisation, SCC fixpoint and escape-aware freshness",
+         lvl("every access to the state that different locations share (System.storage, the location cache table and entries, MemStorage, timer histories, the HTTP breaker map) is made under its mutex on every static path, or is listed as a known finding.", "per-location sequential equivalence, deadlock freedom."),
+         NOTE + " Lock identity is by (type, mutex field).", "DESIGN.md §3.1, §4 C11"),
+ "C12": ("lock-set (guarded-by) analysis incl. storage writes and privilege grants as pseudo-accesses; atomic-section and pairing rules",
+         lvl("every access to the state maps/indexes/rule cache, Location.control/ReadOnly/lastUpdated and Context privilege/props is under the owning lock in a sufficient mode; storage writes and privilege grants happen under the state's write lock; no lock release between the storage write and the memory write of one operation; every privilege grant is revoked on every path. Existing violations are listed one by one as known findings so that a new unguarded access is still reported.", "linearizability of histories, deadlock."),
+         NOTE + " Lock identity is by (type, mutex field); Context.isPrivileged assumed false where it steers slock/sunlock.", "DESIGN.md §3.1, §4 C12"),
+ "C15": ("coverage (pairing with per-id matching) analysis of add/removal hooks over the state implementations; gate rule for one-shot rules; provenance of the cron job key",
+         lvl("every id that enters / leaves a state's fact map has the add / removal hook run for it first (violations on expiry, cascade and linear Clear/Delete/Load are known findings); one-shot rules are removed after they ran; with a cron shared by all locations the job key depends on the location.", "tick timing, which location a tick is evaluated in, replacement by a non-scheduled rule."),
+         NOTE, "DESIGN.md §4 C15"),
+ "C19": ("must-pass-through (gate) analysis over go/ssa CFGs + VTA call graph; who-may-call; operand provenance in the gates",
+         lvl("every path from each exported Location method and each root (JS callbacks, goroutines) to a mutating/revealing State call passes the success edge of CheckWrite/CheckRead/Enabled before the first state access; ungated mutators are called only from allow-listed code; the gates compare the right key with the right property and sub-contexts inherit the keys.", "equality of behaviour with the right keys."),
+         NOTE + " Reflection-invoked closures are treated as entries; external App/Tracer/Logger implementers assumed not to touch state.", "DESIGN.md §3.2, §4 C19"),
+ "C20": ("gate analysis (capacity, HTTP breaker), lock-set, atomic-section, value-dependence and sibling-agreement rules over the breakers and the throttle",
+         lvl("State.Add only behind the not-at-capacity edge; the breaker's limit test and admission increment are in one critical section; the sliding clock depends on the quantised shift; every Breaker.Do reports true whenever it ran the thunk; the throttle's pending accounting is atomic and paired and the breaker is retried only on the not-attempted edge; client.Do only behind the breaker consultation.", "the numeric rate bound over sliding windows, capacity under concurrent adds."),
+         NOTE, "DESIGN.md §4 C20"),
 }
 
 NOT_APPLICABLE = {
+ "C16": "static rules for the cron services are being built in this session (lock-set part exists); not claimed until complete",
  "C03": "query semantics is a denotational, value-level property over all query programs; no structural clause is a necessary condition that static analysis can decide (DESIGN.md §5); a reference evaluator on generated programs is a different technique family",
 }
 
